@@ -14,7 +14,7 @@ for s in "${ids[@]}"; do
   for p in $owner C17; do
     R=$(mktemp -d /tmp/seedrep.XXXXXX)
     t0=$(date +%s)
-    out=$(VERIF_STALL_LIMIT=120s VERIF_REPLAYS=$R VERIF_EVIDENCE=$R timeout 1500 ./vsim check $p ${SWEEP_ARGS:-} 2>&1); rc=$?
+    out=$(VERIF_STALL_LIMIT=400s VERIF_REPLAYS=$R VERIF_EVIDENCE=$R timeout 2400 ./vsim check $p ${SWEEP_ARGS:-} 2>&1); rc=$?
     t1=$(date +%s)
     python3 - "$s" "$p" "$rc" "$((t1-t0))" <<PY >> seeded/sweep.jsonl.tmp
 import json,sys,re
